@@ -61,7 +61,7 @@ def shape_strata(module, factory, tier, *, extra=None, quick=None, thorough=None
     return jobs
 
 
-def pipeline_jobs(factory, tier, *, relists=("atoms", "bonds", "labels", "recanon", "keys"), elem=True, curated=True, extra=None,
+def pipeline_jobs(factory, tier, *, relists=("atoms", "bonds", "labels", "recanon", "recanon-scrambled", "keys"), elem=True, curated=True, extra=None,
                   module="harness.pipeline", scale=1.0, km_q=2, kr_q=1, km_t=3, kr_t=2, curated_relist="atoms",
                   n_max_q=4, n_max_t=5):
     """Standard strata of DESIGN §5 for a graph-level harness."""
@@ -75,7 +75,7 @@ def pipeline_jobs(factory, tier, *, relists=("atoms", "bonds", "labels", "recano
         if r == "atoms" or r is None:
             par = dict(K_m=km_t if thorough else km_q, K_r=kr_t if thorough else kr_q)
             ns = list(range(1, nmax + 1))
-        elif r in ("labels", "recanon", "keys"):
+        elif r in ("labels", "recanon", "recanon-scrambled", "keys"):
             par = dict(K_m=2 if thorough else 1, K_r=1)
             ns = list(range(2, nmax + 1))
         else:
@@ -127,7 +127,7 @@ def std_bounds(tier, relist=True):
          "labels": "at most K_m mass and K_r radical labels at solver-chosen atoms (K_m<=%d, K_r<=%d on S-shape; fewer on the larger strata, see strata), values symbolic integers >= 1, unbounded above" % ((3, 2) if t else (2, 1)),
          "alphabets": {"S-shape": ["C"], "S-elem6 (n<=%d)" % (3 if t else 2): SIGMA_Q, "S-elem4 (n<=%d)" % (4 if t else 3): SIGMA_T4}}
     if relist:
-        b["relistings_of_graph_objects"] = "keys: the declared indices (dict keys handed to graph_from_molecule) of two adjacent listing positions exchanged, so that indices do not ascend in listing order; labels: two solver-chosen adjacent labels exchanged without changing the node iteration order (nx.relabel_nodes); recanon: the canonical graph itself fed back in (its listing order differs from its numbering)"
+        b["relistings_of_graph_objects"] = "keys: the declared indices (dict keys handed to graph_from_molecule) of two adjacent listing positions exchanged, so that indices do not ascend in listing order; labels: two solver-chosen adjacent labels exchanged without changing the node iteration order (nx.relabel_nodes); recanon: the canonical graph itself fed back in (its listing order differs from its numbering); recanon-scrambled: the canonical graph renumbered with nx.relabel_nodes and fed back in"
         b["relistings"] = "one adjacent transposition of the atom listing at a solver-chosen position (generators of S_n; the strata are closed under relabelling); bond listing reversed / rotated; bond orientation none / all / one solver-chosen bond flipped"
     return b
 
